@@ -67,10 +67,10 @@ class Observed:
         self.mass.orig = _rdD.HeavyAtomMolWt
         obs = self
 
-        def make(orig):
+        def make(orig, site):
             def wrapper(bond_descriptors, bond, rng):
                 n_before = len(getattr(rng, "log", []))
-                rec = {"bds": list(bond_descriptors), "list_obj": bond_descriptors, "bond": bond, "log_index": n_before, "result": None, "error": None,
+                rec = {"site": site, "bds": list(bond_descriptors), "list_obj": bond_descriptors, "bond": bond, "log_index": n_before, "result": None, "error": None,
                        "w": [float(b.weight) for b in bond_descriptors],
                        "trans": [None if b.transitions is None else [float(x) for x in b.transitions] for b in bond_descriptors]}
                 obs.chooses.append(rec)
@@ -83,9 +83,9 @@ class Observed:
                 return r
             return wrapper
         if self._orig_choose_st is not None:
-            _st.choose_compatible_weight = make(self._orig_choose_st)
+            _st.choose_compatible_weight = make(self._orig_choose_st, "stochastic")
         if self._orig_choose_tk is not None:
-            _tk.choose_compatible_weight = make(self._orig_choose_tk)
+            _tk.choose_compatible_weight = make(self._orig_choose_tk, "token")
         _rdD.HeavyAtomMolWt = self.mass.HeavyAtomMolWt
         return self
 
